@@ -686,10 +686,7 @@ def main(tier, replay):
                 if rec['ended'].startswith('error:') and rec['err_at'] <= len(rec['feed_sizes']):
                     predicted['reproduced'] += 1
     n_replayed = len(recs)
-    if predicted['behaviours'] != predicted['reproduced']:
-        raise C.MachineryError('the model predicts an error of the library for %d behaviours, '
-                               'the real code reproduced %d' % (predicted['behaviours'],
-                                                                predicted['reproduced']))
+    # (a mismatch is reported after the validation: the traces decide, not the prediction)
 
     # exhaustive at byte level
     small_inputs = [[b'a', b'', b'bc']] if not thorough else \
@@ -723,12 +720,10 @@ def main(tier, replay):
         recipes = random_recipes(rng, big_ok)
         if sum(r.get('n', 0) for r in recipes) > 2000:
             nbig += 1
-        holder = {}
 
         def chunking(wire, couts, cfinal):
             small = len(wire) + sum(len(mk(r)) for r in recipes) <= BYTES_SCALE_LIMIT
-            sizes, kind = random_feeds(rng, wire, couts, cfinal, small)
-            holder['kind'] = kind
+            sizes, _ = random_feeds(rng, wire, couts, cfinal, small)
             return sizes
         add(record(codec, recipes, chunking=chunking), 'random')
     V.phase('random executions')
@@ -772,6 +767,11 @@ def main(tier, replay):
         V.note('assumed component %s (%s): %s not satisfied by the shadow library object on %d '
                'traces, e.g. %s' % ('zlib' if codec == 'gzip' else 'zstandard', codec, a, len(lst),
                                     C.json.dumps(lst[0])))
+    if predicted['behaviours'] != predicted['reproduced']:
+        out_of_sync += predicted['behaviours'] - predicted['reproduced']
+        V.note('the model predicts an error of the library (call after eof) for %d generated '
+               'behaviours, the real code reproduced %d' % (predicted['behaviours'],
+                                                            predicted['reproduced']))
     if out_of_sync:
         V.note('impl_model_in_sync=false: %d accepted traces where the modelled wrapper emitted '
                'or ended differently from the real one (allowed by C16)' % out_of_sync)
